@@ -383,6 +383,9 @@ def run(ctx: Any, prog: Program) -> None:
             consuming = [u for u in uses if rebound_line is None or u.lineno < rebound_line or (u.lineno == rebound_line)]
             after = [u for u in uses if rebound_line is not None and u.lineno > rebound_line]
             n_before = len([u for u in uses if rebound_line is None or u.lineno <= rebound_line])
+            if len(uses) == 1 and isinstance(uses[0], ast.Call) and dotted(uses[0].func) in ('list', 'tuple', 'sorted'):
+                # `new_ents = list(ents)` and everything afterwards works on the list: materialised under another name
+                ctx.check('C07.I7', True, vm, fn, f'VMF.{name}: parameter `{pn}` is materialised once', func=f'VMF.{name}', text=f'{name}: {pn} materialised before multi-use')
             if len(uses) >= 2:
                 ok = rebound_line is not None and n_before <= 1
                 ctx.check('C07.I7', ok, vm, fn, f'VMF.{name}: parameter `{pn}` ({ann}) is consumed {len(uses)} times' +
